@@ -197,3 +197,103 @@ CONTRACTS = [Interpolate("MachineLearning.interpolate_points_component_grid"),
 LEMMAS = [L.SmtLemma("sum-scale", _sum_scale_lemma, note="Sum(a/L) == Sum(a)/L by induction on the length")]
 ASSUMPTIONS = ["the sum of the raw coefficients is not zero (the library divides by it; safety obligation `div` is assumed through A-NORMALISABLE)",
                "A-MSE-POS: validation errors are positive", "design matrix, smoothing matrix, normal equations, lstsq: layer B only"]
+
+
+# --------------------------------------------------------------------------- smoothing matrix of a uniform component grid: every entry is the gradient Gram entry
+# C20: "the smoothing matrix ... equals the Gram matrix of the basis gradients".  build_C_matrix is verified for ANY pair of grid points of a uniform grid in
+# 1 and 2 dimensions: the grid is abstracted to two points with arbitrary (symbolic) index vectors, so the 2 x 2 matrix the real loops fill holds
+#   C[0][1] = C[1][0] = <grad phi_p, grad phi_q>,  C[0][0] = <grad phi_p, grad phi_p>,  C[1][1] likewise,
+# with the 1-D factors of hats of mesh width h = 2^-l:  stiffness 2/h (same node), -1/h (neighbours), 0 (farther);  mass 2h/3, h/6, 0.
+def _pow2ax():
+    j = z3.Int("p2k")
+    return [P.POW2(0) == 1, z3.ForAll([j], z3.Implies(j >= 0, z3.And(P.POW2(j + 1) == 2 * P.POW2(j), P.POW2(j) >= 1)), patterns=[P.POW2(j)])]
+
+
+def stiff1d(l, p, q):
+    h = 1 / z3.ToReal(P.POW2(l))
+    return z3.If(p == q, 2 / h, z3.If(z3.Or(p - q == 1, q - p == 1), -1 / h, z3.RealVal(0)))
+
+
+def mass1d(l, p, q):
+    h = 1 / z3.ToReal(P.POW2(l))
+    return z3.If(p == q, 2 * h / 3, z3.If(z3.Or(p - q == 1, q - p == 1), h / 6, z3.RealVal(0)))
+
+
+def grad_gram(levels, p, q):
+    total = z3.RealVal(0)
+    d = len(levels)
+    for k in range(d):
+        term = z3.RealVal(1)
+        for m in range(d):
+            term = term * (stiff1d(levels[k], p[k], q[k]) if m == k else mass1d(levels[m], p[m], q[m]))
+        total = total + term
+    return total
+
+
+class GridNumPoints(Contract):
+    file, qualname = "sparseSpACE/Grid.py", "Grid.get_num_points"
+    trusted = True
+    note = "number of points of the component grid; the proof abstracts the grid to TWO points with arbitrary index vectors (any pair of grid points)"
+
+    def inputs(self, S):
+        return {"self": Obj("TrapezoidalGrid", {})}
+
+    def result(self, S, env):
+        return 2
+
+
+class CrossProductRange(Contract):
+    file, qualname = "sparseSpACE/Utils.py", "get_cross_product_range_list"
+    trusted = True
+    note = "0-based index vectors of the grid points, one row per point; here: the two abstract points"
+
+    def inputs(self, S):
+        return {"one_d_arrays": None}
+
+    def result(self, S, env):
+        rows_ = S.ex.ghost["index_rows"]
+        return Seq("array", [Seq("array", list(r)) for r in rows_])
+
+
+class BuildCMatrix(Contract):
+    file, qualname = FILE, "Regression.build_C_matrix"
+
+    def __init__(self, dim):
+        self.dim = dim
+        self.label = "Regression.build_C_matrix[any two grid points, dim=%d]" % dim
+
+    def inputs(self, S):
+        for ax in _pow2ax():
+            S.assume(ax, "def:pow2")
+        d = self.dim
+        rows_ = [[S.int("p%d" % k) for k in range(d)], [S.int("q%d" % k) for k in range(d)]]
+        S.ex.ghost["index_rows"] = rows_
+        return {"self": Obj("Regression", dict(grid=Obj("TrapezoidalGrid", dict(numPoints=None)), log_util=Obj("LogUtility", {}))), "levelvec": Seq("list", [S.int("l%d" % k) for k in range(d)])}
+
+    def pre(self, S, env):
+        rows_ = S.ex.ghost["index_rows"]
+        return [("levels-at-least-one", z3.And(*[l >= 1 for l in env["levelvec"].items])),
+                ("index-vectors-nonnegative", z3.And(*[x >= 0 for r in rows_ for x in r]))]
+
+    def post(self, S, old, env, result):
+        from pyvc import values as Vv
+        ok = isinstance(result, Seq) and result.concrete and len(result.items) == 2 and all(isinstance(r, Seq) and r.concrete and len(r.items) == 2 for r in result.items)
+        if not ok:
+            return [Cl("returns-the-matrix", False, prop=True)]
+        lv = old["levelvec"].items
+        p, q = [[x + 1 for x in r] for r in S.ex.ghost["index_rows"]]     # the library works with 1-based indices
+        e = lambda i, j: Vv.to_z3(result.items[i].items[j], True)  # noqa
+        return [Cl("returns-the-matrix", True, prop=True),
+                Cl("off-diagonal-entry-is-the-gradient-gram-entry-of-the-two-hats", e(0, 1) == grad_gram(lv, p, q), prop=True),
+                Cl("matrix-is-symmetric", e(1, 0) == e(0, 1), prop=True),
+                Cl("diagonal-entries-are-the-gradient-gram-entries", z3.And(e(0, 0) == grad_gram(lv, p, p), e(1, 1) == grad_gram(lv, q, q)), prop=True)]
+
+    def model_to_input(self, model):
+        from pyvc import modelparse as mp
+        g = lambda k, dflt: int(mp.num(model.get(k, str(dflt))) or dflt)  # noqa
+        return {"kind": "C20.c_matrix", "dim": self.dim, "levelvec": [g("l%d" % k, 2) for k in range(self.dim)], "p": [g("p%d" % k, 0) for k in range(self.dim)], "q": [g("q%d" % k, 0) for k in range(self.dim)]}
+
+
+CONTRACTS += [GridNumPoints(), CrossProductRange(), BuildCMatrix(1), BuildCMatrix(2)]
+ASSUMPTIONS += ["build_C_matrix: the grid is abstracted to two points with arbitrary symbolic index vectors (every entry of the real matrix is computed from one pair of index vectors "
+                "by the same loop body); dimensions 1-2; the 1-D stiffness / mass factors of hats of width 2^-l are 2/h, -1/h, 0 and 2h/3, h/6, 0 (calculus facts behind the spec)"]
